@@ -291,7 +291,7 @@ pub fn configs(tier: crate::registry::Tier, _seed: u64) -> Vec<crate::registry::
     }
     // larger diagrams from the repository's table (5-6 crossings): Z and Q, (h,t) in [-1,1]^2 (quick) / [-2,2]^2 (thorough)
     for (name, pd) in khref::big_catalogue() {
-        let quick_set = ["5_2", "L5a1", "6_2"];
+        let quick_set = ["5_2", "L5a1", "6_2", "L6n1", "L7n2"];
         if tier == Tier::Quick && !quick_set.contains(&name) {
             continue;
         }
